@@ -176,6 +176,106 @@ def run_case(case, tl_max):
     return res
 
 
+# ---- levels: the guard at file / type / variant / field / struct-variant-field level, through parser::parse ------------------
+LEVELS = ["file", "type", "variant", "field", "variant_field"]
+LEVEL_TREES = [("os",), ("not", (("os",),)), ("any", (("os",), ("os",))), ("all", (("not", (("os",),)), ("os",))), ("all", (("os",), ("not", (("os",),)))), ("feat",)]
+SPELLINGS = {"rustfmt": lambda t: t, "compact": lambda t: t.replace(" = ", "=").replace(", ", ","), "spread": lambda t: t.replace(" = ", "  =\n    ")}
+
+
+def level_source(level, tree, spelling, names=None):
+    ctr = [0]
+    cfg = SPELLINGS[spelling]("cfg(%s)" % render(tree, ctr))
+    if names is not None:
+        for i, nm in enumerate(names):
+            cfg = cfg.replace('"os%d"' % i, '"%s"' % nm)
+    g = "#[%s]" % cfg
+    if level == "file":
+        return "#![%s]\n#[typeshare]\npub struct Guarded { pub x: u32 }\n" % cfg
+    if level == "type":
+        return "#[typeshare]\n%s\npub struct Guarded { pub x: u32 }\n#[typeshare]\npub struct Other { pub y: u32 }\n" % g
+    if level == "variant":
+        return "#[typeshare]\npub enum Holder { Keep, %s Guarded }\n" % g
+    if level == "field":
+        return "#[typeshare]\npub struct Holder { pub keep: u32, %s pub guarded: u32 }\n" % g
+    return '#[typeshare]\n#[serde(tag = "t", content = "c")]\npub enum Holder { Keep(u32), V { keep: u32, %s guarded: u32 } }\n' % g
+
+
+def level_present(level, d):
+    """is the guarded thing in the (JSON-like) summary?  d: {'structs': [(name, [fields])], 'enums': [(name, [(variant, fields|None)])]}"""
+    if level in ("file", "type"):
+        return any(n == "Guarded" for n, _ in d["structs"])
+    if level == "variant":
+        return any(v == "Guarded" for _, vs in d["enums"] for v, _ in vs)
+    if level == "field":
+        return any("guarded" in fs for _, fs in d["structs"])
+    return any("guarded" in (fs or []) for _, vs in d["enums"] for _, fs in vs)
+
+
+def run_level(case, tl_max):
+    from checks.pcommon import explore_source
+    from checks.c03 import lists
+    level, tree, spelling = case
+    src = level_source(level, tree, spelling)
+    nos = count_os(tree)
+    acc, rej = [], []
+    classify(tree, False, [0], acc, rej)
+    res = {"paths": 0, "violations": [], "notes": [], "queries": 0, "solver_s": 0.0, "funcs": [], "models": []}
+    for tl in range(1, tl_max + 1):
+        names = [z3.BitVec("n%d" % i, 32) for i in range(nos)]
+        tg = [z3.BitVec("t%d" % i, 32) for i in range(tl)]
+
+        def plant(I):
+            for x in names + tg:
+                I.assume(z3.And(z3.UGE(x, 97), z3.ULE(x, 100)))
+            return {"os%d" % i: [names[i]] for i in range(nos)}
+        I = None
+        for I, kind, pd, pc in explore_source(src, plant, target_os=[RString([t]) for t in tg], via_parse=True, file_path="src/lib.rs"):
+            res["paths"] += 1
+            if kind == "panic":
+                res["violations"].append({"kind": "panic", "msg": pd.msg, "tl": tl}); continue
+            empty = {"structs": [], "enums": []}
+            got = lists(I, pd) if pd is not None else empty
+            present = level_present(level, {"structs": [(a, b) for a, b in got["structs"]], "enums": [(a, b) for a, b in got["enums"]]})
+            in_t = lambda x: z3.Or([x == t for t in tg])
+            spec = z3.And(z3.Not(z3.Or([in_t(names[i]) for i in rej])) if rej else z3.BoolVal(True), z3.Or([in_t(names[i]) for i in acc]) if acc else z3.BoolVal(True))
+            m = I.sat_model(z3.BoolVal(bool(present)) != spec)
+            if m is not None:
+                ev = lambda x: chr(m.eval(x, model_completion=True).as_long())
+                res["violations"].append({"kind": "wrong-decision", "names": [ev(x) for x in names], "targets": [ev(x) for x in tg], "got": bool(present), "tl": tl})
+        if I is not None:
+            res["queries"] += I.queries; res["solver_s"] += I.solver_s
+            res["funcs"] = sorted(set(res["funcs"]) | set(I.called)); res["models"] = sorted(set(res["models"]) | set(I.models_hit)); res["notes"] = list(I.notes)
+    return res
+
+
+def summarise(d):
+    if d is None:
+        return {"structs": [], "enums": []}
+    structs = [(s["id"]["original"], [f["id"]["original"] for f in s["fields"]]) for s in d["structs"]]
+    enums = []
+    for e in d["enums"]:
+        sh = e["0"] if e["$"].endswith("Unit") else e["shared"]
+        vs = []
+        for v in sh["variants"]:
+            if v["$"].endswith("Unit"):
+                vs.append((v["0"]["id"]["original"], None))
+            elif v["$"].endswith("Tuple"):
+                vs.append((v["shared"]["id"]["original"], None))
+            else:
+                vs.append((v["shared"]["id"]["original"], [f["id"]["original"] for f in v["fields"]]))
+        enums.append((sh["id"]["original"], vs))
+    return {"structs": structs, "enums": enums}
+
+
+def native_level(rep, case, names, targets):
+    level, tree, spelling = case
+    src = level_source(level, tree, spelling, names)
+    r = rep.ask({"op": "parse", "source": src, "target_os": targets})
+    if "ok" not in r:
+        return None, src, r
+    return level_present(level, summarise(r["ok"])), src, r
+
+
 def concrete_source(case, names, level="type"):
     ctr = [0]
     cfgs = []
@@ -299,6 +399,36 @@ def run(rep, tier, only=None):
                                   {"source": src, "target_os": v["targets"], "generated": present})
             else:
                 rep.inconc("engine mismatch: %s names=%s targets=%s interpreter says %s, real library says %s" % (case, v["names"], v["targets"], v["got"], present))
+    # the guard at every attachment level, entered through parser::parse (source text symbolic in the OS names)
+    lcases = [(lv, t, sp) for lv in LEVELS for t in LEVEL_TREES for sp in SPELLINGS if not (t == ("feat",) and sp != "rustfmt")]
+    if only:
+        lcases = [c for c in lcases if "levels" in only] if "levels" in only else []
+    rep.bounds["levels"] = "guard at %s level x %d cfg trees x spellings %s of the attribute text, target list of length 1..%d, entered through parser::parse (text pre-filter, syn::parse_file model, visitor)" % (LEVELS, len(LEVEL_TREES), sorted(SPELLINGS), tl_max)
+    rep.harnesses["levels"] = len(lcases)
+    for st, case, r in pmap(("checks.c13", "run_level"), lcases, (tl_max,)):
+        rep.obligations += 1
+        if st != "ok":
+            rep.inconc("level case %s: %s" % (case, r)); continue
+        rep.states += r["paths"]; rep.queries += r["queries"]; rep.solver_s += r["solver_s"]
+        rep.functions.update(r["funcs"]); rep.models.update(r["models"])
+        rep.discharged += 1
+        for v in r["violations"][:1]:
+            if v["kind"] == "panic":
+                rep.inconc("panic path at level %s: %s" % (case, v["msg"])); continue
+            sig = {"group": "levels", "level": case[0], "spelling": case[2], "kind": v["kind"], "tree": str(case[1])[:60]}
+            key = ("levels", case[0], case[2], v["kind"])
+            if key in reported:
+                continue
+            present, src, raw = native_level(nat, case, v["names"], v["targets"])
+            rep.validated += 1
+            if present is None:
+                rep.inconc("replay failed for level %s: %s" % (case, str(raw)[:200])); continue
+            if present == v["got"]:
+                reported.add(key)
+                rep.violation(sig, "with --target-os=%s, `%s`: the guarded %s is %s, the documented rule says %s" % (",".join(v["targets"]), src.replace("\n", " "), case[0], "generated" if present else "dropped", "dropped" if present else "generated"),
+                              {"source": src, "target_os": v["targets"], "generated": present, "level": case[0]})
+            else:
+                rep.inconc("engine mismatch at level %s: interpreter says %s, real library %s" % (case, v["got"], present))
     nat.close()
     rep.harnesses["cases"] = len(cases)
     rep.extra["explore_s"] = round(time.time() - t0, 1)
@@ -309,6 +439,9 @@ def replay(case):
     rep = Replayer()
     r = rep.ask({"op": "parse", "source": c["source"], "target_os": c["target_os"]})
     rep.close()
-    present = any(s["id"]["original"] == "Guarded" for s in r["ok"]["structs"])
+    if c.get("level"):
+        present = level_present(c["level"], summarise(r.get("ok")))
+    else:
+        present = any(s["id"]["original"] == "Guarded" for s in r["ok"]["structs"])
     print("generated=%s (recorded violation had generated=%s)" % (present, c["generated"]))
     return 1 if present == c["generated"] else 0
